@@ -217,6 +217,60 @@ def integer_ndarray_operands(ck, db):
                             ck.bad("raised:integer-ndarray-operand", case, {"error": "%s: %s" % (type(ex).__name__, str(ex)[:160])})
 
 
+def zero_derived_operands(ck, db):
+    """derived amounts (units in the denominator, squares, several quantity types) one of which is exactly zero - 'the pump
+    is off' - added and subtracted in both orders, Scalars and Arrays: a zero is re-expressed like any other amount"""
+    import numpy as np
+    from barril.units import Array, Scalar
+
+    ctx = ck.ctx
+
+    def size(u):
+        qt = db.GetQuantityType(u)
+        return db.Convert(qt, u, db.GetBaseUnit(qt), 1.0) - db.Convert(qt, u, db.GetBaseUnit(qt), 0.0)
+
+    def build(cls, value, parts):
+        # parts: [(unit, exponent)]; the amount is `value` in the product of those units
+        def one(x, u):
+            return Scalar(x, u) if cls == "scalar" else Array(np.array([x, x]) if cls == "nd" else [x, x], u)
+
+        acc = None
+        for u, e in parts:
+            for _ in range(abs(e)):
+                f = one(1.0, u)
+                if acc is None:
+                    acc = f if e > 0 else 1.0 / f
+                else:
+                    acc = acc * f if e > 0 else acc / f
+        return acc * value
+
+    FAMILIES = [
+        ([("min", -1)], [("s", -1)]), ([("s", -1)], [("min", -1)]), ([("min", -2)], [("s", -2)]), ([("h", -1)], [("d", -1)]),
+        ([("kg", 1), ("m", -3)], [("g", 1), ("cm", -3)]), ([("m", 1), ("s", -1)], [("km", 1), ("h", -1)]), ([("m", 2)], [("cm", 2)]),
+        ([("m", 1), ("s", -2)], [("ft", 1), ("min", -2)]),
+    ]
+    for pa, pb in FAMILIES:
+        k = 1.0
+        for (ua, e), (ub, _e) in zip(pa, pb):
+            k *= (size(ub) / size(ua)) ** e
+        for cls in ("scalar", "list", "nd"):
+            for av, bv in ((0.5, 0.0), (0.0, 0.5), (0.0, 0.0), (0.5, -0.0), (2.0, 0.25)):
+                case = {"zero derived operand": True, "a": [av, pa], "b": [bv, pb], "class": cls}
+                ctx.ev()
+                ctx.nt(("zero derived", str(pa), str(pb), cls, av, bv))
+                try:
+                    a, b = build(cls, av, pa), build(cls, bv, pb)
+                    vals = lambda x: [x.GetValue()] if cls == "scalar" else [float(t) for t in x.GetValues()]  # noqa: E731
+                    for sym, res, want, unit_of in (("a+b", a + b, av + bv * k, a), ("a-b", a - b, av - bv * k, a), ("b+a", b + a, bv + av / k, b), ("b-a", b - a, bv - av / k, b), ("(a+b)-b", (a + b) - b, av, a)):
+                        got = vals(res)
+                        if res.GetUnit() != unit_of.GetUnit() or res.GetQuantity().GetComposingCategories() != unit_of.GetQuantity().GetComposingCategories():
+                            ck.bad("zero-derived-operand:unit:%s" % sym, case, {"got": res.GetUnit(), "want": unit_of.GetUnit()})
+                        if not all(abs(g - want) <= 1e-9 * (abs(want) + abs(av) + abs(bv * k if unit_of is a else av / k)) + 1e-300 for g in got):
+                            ck.bad("zero-derived-operand:value:%s" % sym, case, {"got": got, "want": want, "result": repr(res)[:160]})
+                except Exception as ex:
+                    ck.bad("raised:zero-derived-operand", case, {"error": "%s: %s" % (type(ex).__name__, str(ex)[:160])})
+
+
 def cancelling_categories(ck, db, r, n):
     """a right operand whose categories partly cancel inside one quantity type (length**2 / diameter is a length, its
     quantity-type string reads 'length') added to a plain amount of that type in another unit - Scalars and Arrays."""
@@ -303,6 +357,7 @@ def run(ctx):
         if ctx.shard == 0:
             cancelling_categories(ck, db, ctx.rng("cancel"), 2 if ctx.tier == "quick" else 12)
             integer_ndarray_operands(ck, db)
+            zero_derived_operands(ck, db)
     ctx.inconclusive_if(probe.COUNTS["UnitDatabase.Sum"] == 0 or probe.COUNTS["UnitDatabase.Subtract"] == 0, "Sum/Subtract never reached")
 
 
